@@ -120,11 +120,11 @@ def run_conc_check(pid, tier, n_sched, n_free, race=False, assumptions=()):
     core.build_driver()
     if race:
         core.build_driver(race=True)
-    mc = core.run_mc("MC_Conc.tla", "MC_Conc_quick.cfg" if tier == "quick" else "MC_Conc_thorough.cfg", "%s-mc-conc" % pid)
+    mc = core.run_mc("MC_Conc.tla", "MC_Conc_quick.cfg" if tier == "quick" else "MC_Conc_thorough.cfg", "%s-mc-conc" % pid, heap="16g")
     log("[%s] MC lock protocol vs monitor: %d distinct states, %d generated, %.1fs" % (pid, mc["states"], mc["transitions"], mc["wall"]))
     live = core.run_mc("MC_Conc.tla", "MC_Conc_live.cfg", "%s-mc-live" % pid, workers=8)
     log("[%s] liveness (WriteControl with a finite deadline always returns, fairness of the control callers only): %d states" % (pid, live["states"]))
-    sim = core.run_sim("MC_Conc.tla", "MC_Conc_sim.cfg", "%s-sim" % pid, n_sched, 200, seed)
+    sim = core.run_sim("MC_Conc.tla", "MC_Conc_sim.cfg" if tier == "quick" else "MC_Conc_sim_thorough.cfg", "%s-sim" % pid, n_sched, 200, seed)
     scheds = sim["progs"]
     if not scheds:
         raise core.Infra("no schedules generated")
